@@ -70,6 +70,16 @@ Inductive instr :=
 | IVLdStReg (scale : Z) (load : bool) (rm option : Z) (s : bool) (rn rt : Z)
 (* C7.2.190 LDP / C7.2.189 LDNP / C7.2.330 STP / C7.2.329 STNP (SIMD&FP): opc = 0 1 2 : S D Q *)
 | IVLdStPair (opc : Z) (mode : pmode) (load : bool) (imm7 rt2 rn rt : Z)
+(* AdvSIMD element moves, all spelled MOV by the decoder: C7.2.176 INS (element), C7.2.177 INS (general),
+   C7.2.371 UMOV (the 32- and 64-bit forms), C7.2.39 DUP (element, scalar), C7.2.225 ORR (vector, register) with Rm = Rn;
+   [size] = log2 of the element size in bytes, indices in elements *)
+| IVIns (size dst src rn rd : Z)
+| IVInsG (size idx rn rd : Z)
+| IVUmov (size idx rn rd : Z)
+| IVDupS (size idx rn rd : Z)
+| IVMovV (q : bool) (rn rd : Z)
+(* C7.2.2 ADD (vector) / C7.2.345 SUB (vector), scalar D-register variant *)
+| IVAddSubD (sub : bool) (rm rn rd : Z)
 (* C6.2.26 B, C6.2.34 BL *)
 | IBImm (link : bool) (imm26 : Z)
 (* C6.2.37 BR (opc=0), C6.2.35 BLR (opc=1), C6.2.254 RET (opc=2) *)
@@ -87,6 +97,32 @@ Definition decode_ldst_opc_ok (size opc : Z) : bool :=
      opc = 10: sign-extending load to 64 bits, size <> 11 (size = 11 is PRFM: not modelled)
      opc = 11: sign-extending load to 32 bits, size in {00, 01} (10, 11: UNDEFINED) *)
   if opc <? 2 then true else if opc =? 2 then size <? 3 else size <? 2.
+
+(* The SVE prefetch encodings (DDI 0487 C8.2 PRFB, PRFD, PRFH, PRFW; all have bit 4 = 0):
+   1000010 00 x 1 Zm 0 msz Pg Rn 0 prfop   gather, scalar plus 32-bit scaled offsets
+   1000010 11 1 imm6 0 msz Pg Rn 0 prfop    contiguous, scalar plus immediate
+   1000010 msz 00 Rm 110 Pg Rn 0 prfop      contiguous, scalar plus scalar (Rm <> 11111)
+   1000010 msz 00 imm5 111 Pg Zn 0 prfop    gather, vector plus immediate (32-bit elements)
+   1100010 00 x 1 Zm 0 msz Pg Rn 0 prfop    gather, scalar plus unpacked 32-bit scaled offsets
+   1100010 00 11 Zm 1 msz Pg Rn 0 prfop     gather, scalar plus 64-bit scaled offsets
+   1100010 msz 00 imm5 111 Pg Zn 0 prfop    gather, vector plus immediate (64-bit elements) *)
+Definition sve_prefetch (w : Z) : bool :=
+  negb (bitb w 4) &&
+  (if bits w 31 25 =? 66 then
+     ((bits w 24 23 =? 0) && bitb w 21 && negb (bitb w 15)) ||
+     ((bits w 24 23 =? 3) && bitb w 22 && negb (bitb w 15)) ||
+     ((bits w 22 21 =? 0) && (bits w 15 13 =? 6) && negb (bits w 20 16 =? 31)) ||
+     ((bits w 22 21 =? 0) && (bits w 15 13 =? 7))
+   else if bits w 31 25 =? 98 then
+     ((bits w 24 23 =? 0) && bitb w 21 && negb (bitb w 15)) ||
+     ((bits w 24 23 =? 0) && (bits w 22 21 =? 3) && bitb w 15) ||
+     ((bits w 22 21 =? 0) && (bits w 15 13 =? 7))
+   else false).
+
+(* LowestSetBit(imm5) for the AdvSIMD copy group; None: imm5 = x0000 (UNDEFINED) *)
+Definition imm5_size (imm5 : Z) : option Z :=
+  if imm5 mod 2 =? 1 then Some 0 else if imm5 mod 4 =? 2 then Some 1 else if imm5 mod 8 =? 4 then Some 2
+  else if imm5 mod 16 =? 8 then Some 3 else None.
 
 (* DecodeBitMasks (J1 aarch64/functions/bitmasks), immediate = TRUE, returning wmask only *)
 Definition bm_len (n imms : Z) : Z := Z.log2 (n * 64 + (63 - imms)).
@@ -116,7 +152,62 @@ Definition move_wide_preferred (sf : bool) (n imms immr : Z) : bool :=
   else if width - 17 <=? imms then (immr mod 16) <=? (imms - (width - 17))
   else false.
 
-Definition decode (w : Z) : option instr :=
+(* the SIMD&FP / SVE part of the decoder (disjoint from the integer classes: bits 28:24 and the V bit) *)
+Definition decode_simd (w : Z) : option instr :=
+  let rd := bits w 4 0 in let rn := bits w 9 5 in let rm := bits w 20 16 in
+  if sve_prefetch w then Some INop                        (* SVE PRFB / PRFH / PRFW / PRFD: no architectural state change *)
+  else if negb (bitb w 31) && (bits w 28 21 =? 112) && negb (bitb w 15) && bitb w 10 then   (* 0 Q op 01110000 imm5 0 imm4 1 : AdvSIMD copy *)
+    let imm5 := bits w 20 16 in let imm4 := bits w 14 11 in let q := bitb w 30 in
+    match imm5_size imm5 with
+    | None => None
+    | Some size =>
+        if bitb w 29 then                                       (* INS (element), Q = 1 *)
+          if q then Some (IVIns size (imm5 / 2 ^ (size + 1)) (imm4 / 2 ^ size) rn rd) else None
+        else if imm4 =? 3 then (if q then Some (IVInsG size (imm5 / 2 ^ (size + 1)) rn rd) else None)
+        else if imm4 =? 7 then                                  (* UMOV: MOV alias for S (Q = 0) and D (Q = 1) only *)
+          if (negb q && (size =? 2)) || (q && (size =? 3)) then Some (IVUmov size (imm5 / 2 ^ (size + 1)) rn rd) else None
+        else None
+    end
+  else if (bits w 31 21 =? 752) && (bits w 15 10 =? 1) then   (* 01011110000 imm5 000001 : DUP (element), scalar *)
+    match imm5_size (bits w 20 16) with
+    | None => None
+    | Some size => Some (IVDupS size (bits w 20 16 / 2 ^ (size + 1)) rn rd)
+    end
+  else if negb (bitb w 31) && (bits w 29 21 =? 117) && (bits w 15 10 =? 7) && (rm =? rn) then   (* 0 Q 0 01110 10 1 Rm 000111 : ORR (vector), Rm = Rn *)
+    Some (IVMovV (bitb w 30) rn rd)
+  else if (bits w 31 30 =? 1) && (bits w 28 21 =? 247) && (bits w 15 10 =? 33) then   (* 01 U 11110 11 1 Rm 100001 : ADD / SUB (vector), scalar D *)
+    Some (IVAddSubD (bitb w 29) rm rn rd)
+  else if (bits w 29 27 =? 5) && bitb w 26 then               (* xx 101 1 : load/store pair, SIMD&FP *)
+    let opc := bits w 31 30 in let mode := bits w 25 23 in let load := bitb w 22 in
+    if opc =? 3 then None
+    else if mode =? 0 then Some (IVLdStPair opc PNoAlloc load (bits w 21 15) (bits w 14 10) rn rd)
+    else if mode =? 1 then Some (IVLdStPair opc PPost load (bits w 21 15) (bits w 14 10) rn rd)
+    else if mode =? 2 then Some (IVLdStPair opc POffset load (bits w 21 15) (bits w 14 10) rn rd)
+    else if mode =? 3 then Some (IVLdStPair opc PPre load (bits w 21 15) (bits w 14 10) rn rd)
+    else None
+  else if (bits w 29 27 =? 7) && bitb w 26 then               (* xx 111 1 : load/store register, SIMD&FP *)
+    let size := bits w 31 30 in let opc := bits w 23 22 in
+    (* opc<1> = 1 : the 128-bit forms, size must be 00; otherwise scale = size *)
+    if (2 <=? opc) && negb (size =? 0) then None
+    else
+      let scale := if 2 <=? opc then 4 else size in
+      let load := bitb w 22 in
+      if bits w 25 24 =? 1 then Some (IVLdStImm scale load WOffset true (bits w 21 10) rn rd)
+      else if bits w 25 24 =? 0 then
+        if negb (bitb w 21) then
+          let k := bits w 11 10 in
+          if k =? 0 then Some (IVLdStImm scale load WOffset false (bits w 20 12) rn rd)
+          else if k =? 1 then Some (IVLdStImm scale load WPost false (bits w 20 12) rn rd)
+          else if k =? 3 then Some (IVLdStImm scale load WPre false (bits w 20 12) rn rd)
+          else None
+        else
+          if (bits w 11 10 =? 2) && bitb w 14
+          then Some (IVLdStReg scale load rm (bits w 15 13) (bitb w 12) rn rd)
+          else None
+      else None
+  else None.
+
+Definition decode_int (w : Z) : option instr :=
   let sf := bitb w 31 in
   let rd := bits w 4 0 in let rn := bits w 9 5 in let rm := bits w 20 16 in
   if bits w 28 23 =? 34 then                                  (* 100010 : add/sub (immediate) *)
@@ -152,34 +243,6 @@ Definition decode (w : Z) : option instr :=
   else if (bits w 31 25 =? 107) && (bits w 24 21 <? 3) && (bits w 20 16 =? 31)
           && (bits w 15 10 =? 0) && (bits w 4 0 =? 0) then    (* 1101011 0 0xx 11111 000000 Rn 00000 : BR / BLR / RET *)
     Some (IBReg (bits w 24 21) rn)
-  else if (bits w 29 27 =? 5) && bitb w 26 then               (* xx 101 1 : load/store pair, SIMD&FP *)
-    let opc := bits w 31 30 in let mode := bits w 25 23 in let load := bitb w 22 in
-    if opc =? 3 then None
-    else if mode =? 0 then Some (IVLdStPair opc PNoAlloc load (bits w 21 15) (bits w 14 10) rn rd)
-    else if mode =? 1 then Some (IVLdStPair opc PPost load (bits w 21 15) (bits w 14 10) rn rd)
-    else if mode =? 2 then Some (IVLdStPair opc POffset load (bits w 21 15) (bits w 14 10) rn rd)
-    else if mode =? 3 then Some (IVLdStPair opc PPre load (bits w 21 15) (bits w 14 10) rn rd)
-    else None
-  else if (bits w 29 27 =? 7) && bitb w 26 then               (* xx 111 1 : load/store register, SIMD&FP *)
-    let size := bits w 31 30 in let opc := bits w 23 22 in
-    (* opc<1> = 1 : the 128-bit forms, size must be 00; otherwise scale = size *)
-    if (2 <=? opc) && negb (size =? 0) then None
-    else
-      let scale := if 2 <=? opc then 4 else size in
-      let load := bitb w 22 in
-      if bits w 25 24 =? 1 then Some (IVLdStImm scale load WOffset true (bits w 21 10) rn rd)
-      else if bits w 25 24 =? 0 then
-        if negb (bitb w 21) then
-          let k := bits w 11 10 in
-          if k =? 0 then Some (IVLdStImm scale load WOffset false (bits w 20 12) rn rd)
-          else if k =? 1 then Some (IVLdStImm scale load WPost false (bits w 20 12) rn rd)
-          else if k =? 3 then Some (IVLdStImm scale load WPre false (bits w 20 12) rn rd)
-          else None
-        else
-          if (bits w 11 10 =? 2) && bitb w 14
-          then Some (IVLdStReg scale load rm (bits w 15 13) (bitb w 12) rn rd)
-          else None
-      else None
   else if (bits w 29 27 =? 5) && negb (bitb w 26) then        (* x0 101 0 : load/store pair, V = 0 *)
     let opc := bits w 31 30 in let mode := bits w 25 23 in let load := bitb w 22 in
     if (opc =? 3) || ((opc =? 1) && negb load) then None      (* UNDEFINED / STGP *)
@@ -219,6 +282,9 @@ Definition decode (w : Z) : option instr :=
   else if (bits w 29 24 =? 25) && (bits w 23 21 =? 0) && (bits w 11 10 =? 0) then   (* xx 011001 00 0 imm9 00 : STLUR(B/H): as STUR *)
     Some (ILdStImm (bits w 31 30) 0 WOffset false (bits w 20 12) rn rd)
   else None.
+
+Definition decode (w : Z) : option instr :=
+  match decode_simd w with Some i => Some i | None => decode_int w end.
 
 (* ------------------------------------------------------------------ machine state *)
 Record a64state := mkA {
@@ -355,6 +421,10 @@ Definition ldst_access (s : a64state) (size opc t address : Z) : option a64state
     | Some data => Some (setX s t (if signed then U regsize (S (8 * 2 ^ size) data) else data))
     end
   else mem_wr s address nbytes (X s t mod 2 ^ (8 * 2 ^ size)).
+
+(* Elem[v, index, esize] and its assignment, on a 128-bit register value *)
+Definition elem (v idx es : Z) : Z := (v / 2 ^ (idx * es)) mod 2 ^ es.
+Definition set_elem (v idx es x : Z) : Z := v - elem v idx es * 2 ^ (idx * es) + x * 2 ^ (idx * es).
 
 (* one SIMD&FP register transfer of 2^scale bytes: a load writes the zero-extended datum to the whole V register *)
 Definition v_access (s : a64state) (scale : Z) (load : bool) (t address : Z) : option a64state :=
@@ -501,6 +571,21 @@ Definition a64step (i : instr) (s : a64state) : a64res :=
             | Some s2 => Done (nextPC (if wback then setSPorX s2 rn (wrap64 (base + offset)) else s2))
             end
         end
+  | IVIns size dst src rn rd =>
+      let es := 8 * 2 ^ size in
+      Done (nextPC (setV s rd (set_elem (vr s rd) dst es (elem (vr s rn) src es))))
+  | IVInsG size idx rn rd =>
+      let es := 8 * 2 ^ size in
+      Done (nextPC (setV s rd (set_elem (vr s rd) idx es (X s rn mod 2 ^ es))))
+  | IVUmov size idx rn rd =>
+      Done (nextPC (setX s rd (elem (vr s rn) idx (8 * 2 ^ size))))
+  | IVDupS size idx rn rd =>
+      Done (nextPC (setV s rd (elem (vr s rn) idx (8 * 2 ^ size))))
+  | IVMovV q rn rd =>
+      Done (nextPC (setV s rd (vr s rn mod 2 ^ (if q then 128 else 64))))
+  | IVAddSubD sub rm rn rd =>
+      let a := vr s rn mod 2 ^ 64 in let b := vr s rm mod 2 ^ 64 in
+      Done (nextPC (setV s rd ((if sub then a - b else a + b) mod 2 ^ 64)))
   | ILdStOrdU _ _ _ _ _ => Undef
   | IOrrImm sf n immr imms rn rd =>
       (* result = operand1 OR imm; if d == 31 then SP[] = result else X[d] = result *)
